@@ -9,7 +9,7 @@ arrival order, empty calls, one-sample calls, everything at once).  Section 4 re
 `Throughput.calculate` / `runAll` (several tasks, the `task_stats` dictionary) to it.
 
 `current = true` is the code as it is (with /repo commit d4fc0e7, which resets `current.unprocessed`
-before the carried-over samples are looped over again).  Section 5 keeps one historical witness about the
+before the carried-over samples are looped over again).  Section 5 lifts everything to the post-processor / driver buffer that own the calculator; section 6 keeps one historical witness about the
 code before that commit.
 
 Floats: `Dbl.fsub` / `Dbl.fdiv` / `Dbl.ofNat` are the IEEE-754 double operations (`a - b`,
@@ -185,7 +185,84 @@ example : (runAll current 1 [] [[(7, wS (201/2) (1/2)), (3, wS 200 1)], [(3, wS 
     [[(7, [some 20]), (3, [some 10])], [(3, [some 10]), (7, [])], [(7, [])], [(7, [some 40])]] := by
   decide +kernel
 
-/-! ## 5. historical witness: the code before /repo commit d4fc0e7 (`fix = false`) -/
+/-! ## 5. the owner of the calculator: `SamplePostprocessor`, the driver's buffer — batching is irrelevant
+
+`postprocessAll` is `SamplePostprocessor.__call__` over successive batches (throughput records that reach the metrics
+store), `driverRun` puts `Driver.update_samples` / `Driver.post_process_samples` in front of it.  The calculator state
+(`task_stats`) is the only thing carried from one batch to the next, it is carried *unchanged*, and no field of a sample
+other than those in `TSample` (not `percent_completed`, not the client id) can influence it. -/
+
+/-- the throughput records written to the store for task `k` by each post-processing run, and the state kept for `k`,
+    are those of the single-task run over `k`'s samples of each batch; sections 1–3 therefore speak about the store -/
+theorem store_records_per_task (calls : List (List (Nat × TSample))) (k : Nat) :
+    (postprocessAll [] calls).2.map (recsOf k) = (run current 1 none (calls.map (samplesOf k))).2 ∧
+    lookupStats k (postprocessAll [] calls).1 = (run current 1 none (calls.map (samplesOf k))).1 :=
+  ⟨(postprocessAll_task k calls []).2, (postprocessAll_task k calls []).1⟩
+
+/-- every interleaving of worker shipments and post-processing runs is the post-processor applied to a cutting of the
+    shipped stream: nothing is lost, duplicated or reordered by the buffer (the tail not yet post-processed is buffered) -/
+theorem driver_is_a_cutting (evs : List DEvent) :
+    (driverRun [] [] evs).2 = (postprocessAll [] (driverBatches [] evs)).2 ∧
+    (driverBatches [] evs).flatten ++ (driverRun [] [] evs).1.1 = shipped evs := by
+  refine ⟨(driverRun_eq evs [] []).1, ?_⟩
+  simpa using driverBatches_flatten evs [] []
+
+/-- **End to end.** For every interleaving of shipments (any clients, any tasks mixed) and post-processing runs, and every
+    task `k` whose throughput is calculated: operations counted + operations carried over + operations still in the
+    driver's buffer = operations shipped for `k`.  Every operation is accounted for exactly once, wherever the
+    post-processing runs happened to cut the stream. -/
+theorem driver_counts_every_operation_once (evs : List DEvent) (k : Nat)
+    (hcomp : ∀ s ∈ samplesOf k (shipped evs), s.tput = none)
+    (t : TaskStats) (ht : lookupStats k (driverRun [] [] evs).1.2 = some t) :
+    t.total + sumOps t.unprocessed + sumOps (samplesOf k (driverRun [] [] evs).1.1) = sumOps (samplesOf k (shipped evs)) := by
+  have hcut := driverBatches_flatten evs [] []
+  rw [List.nil_append] at hcut
+  have hk : samplesOf k (shipped evs) =
+      ((driverBatches [] evs).map (samplesOf k)).flatten ++ samplesOf k (driverRun [] [] evs).1.1 := by
+    rw [← hcut, samplesOf_append, samplesOf_flatten]
+  have hc : Computed ((driverBatches [] evs).map (samplesOf k)) := by
+    intro b hb s hs
+    apply hcomp s
+    rw [hk]
+    exact List.mem_append_left _ (List.mem_flatten.mpr ⟨b, hb, hs⟩)
+  rw [(driverRun_eq evs [] []).2, (postprocessAll_task k (driverBatches [] evs) []).1] at ht
+  have := ops_conserved_sum 1 _ hc t ht
+  rw [hk, sumOps_append, ← this]
+
+/-- two cuttings of the same stream end with the same number of operations accounted for (counted + carried) -/
+theorem count_independent_of_batching (bi : Nat) (b1 b2 : List (List TSample)) (hflat : b1.flatten = b2.flatten)
+    (hc : Computed b1) (t1 t2 : TaskStats)
+    (h1 : (run current bi none b1).1 = some t1) (h2 : (run current bi none b2).1 = some t2) :
+    t1.total + sumOps t1.unprocessed = t2.total + sumOps t2.unprocessed := by
+  have hc2 : Computed b2 := by
+    intro b hb s hs
+    have hmem : s ∈ b1.flatten := by rw [hflat]; exact List.mem_flatten.mpr ⟨b, hb, hs⟩
+    obtain ⟨b', hb', hs'⟩ := List.mem_flatten.mp hmem
+    exact hc b' hb' s hs'
+  rw [ops_conserved_sum bi b1 hc t1 h1, ops_conserved_sum bi b2 hc2 t2 h2, hflat]
+
+/-- a tuple emitted (by any call, under any cutting) for the one sample that is not earlier than any other sample fed so
+    far is `float(ops of everything fed so far) / largest elapsed time`: the cutting does not enter -/
+theorem latest_value_counts_everything (bi : Nat) (batches : List (List TSample)) (hc : Computed batches)
+    (t : TaskStats) (ht : (run current bi none batches).1 = some t)
+    (k : Nat) (outs : List Out) (hk : (run current bi none batches).2[k]? = some outs) (o : Out) (ho : o ∈ outs)
+    (hl : (fedUpTo batches k).countP (fun x => decide (o.abs ≤ x.abs)) = 1) :
+    ∃ iv, IsMaxElapsed t.start (fedUpTo batches k) iv ∧ 0 < iv ∧
+      o.value = some (Dbl.fdiv (Dbl.ofNat (sumOps (fedUpTo batches k))) iv) :=
+  valueSpec_latest (value_is_prefix_rate bi batches hc t ht k outs hk o ho) hl
+
+/-- non-vacuity: two clients of task 7 (and a task 3) shipped worker by worker, post-processing runs in between, one of
+    them with an empty buffer; the store gets 20/s, then 40/s for task 7 once the bucket is complete — the same values as
+    `witness` in one piece — and one sample stays buffered -/
+example : (driverRun [] [] [.update [(7, wS (201/2) (1/2)), (3, wS 200 1)], .postProcess, .postProcess,
+      .update [(7, wS (805/8) (5/8))], .update [(3, wS 201 2), (7, wS (403/4) (3/4))], .postProcess,
+      .update [(7, wS 101 1)], .postProcess, .update [(7, wS 102 2)]]).2.map
+        (fun c => c.map (fun ko => (ko.1, ko.2.value))) =
+      [[(7, some 20), (3, some 10)], [], [(7, none), (3, some 10)].drop 1, [(7, some 40)]] ∧
+    (driverRun [] [] [.update [(7, wS (201/2) (1/2))], .postProcess, .update [(7, wS 102 2)]]).1.1.length = 1 := by
+  decide +kernel
+
+/-! ## 6. historical witness: the code before /repo commit d4fc0e7 (`fix = false`) -/
 
 /-- HISTORICAL (not about the current code).  Before commit d4fc0e7 conservation was false: on `witness` the
     sample of the second call was carried into the third call, which completed no bucket and appended it to
